@@ -654,12 +654,13 @@ func runC11Burst(b c11Burst) (string, bool) {
 	sawParked := 0
 	// release the held handlers one at a time, whichever is blocked (on an intact tree: in ascending order),
 	// each after its own witness
+	released := map[int]bool{} // rel itself is read by the handlers: it is not written after the burst has started
 	for left := len(b.held); left > 0 && !hang; left-- {
 		how, which := 0, 0
 		ok := wait("a held handler blocked and the reader parked or through", func() bool {
 			which = 0
 			for _, m := range b.held {
-				if rel[m] != nil && st.entered[m] {
+				if !released[m] && st.entered[m] {
 					which = m
 					break
 				}
@@ -685,10 +686,10 @@ func runC11Burst(b c11Burst) (string, bool) {
 			sawParked++
 		}
 		close(rel[which])
-		rel[which] = nil
+		released[which] = true
 	}
-	for _, ch := range rel {
-		if ch != nil {
+	for m, ch := range rel {
+		if !released[m] {
 			close(ch)
 		}
 	}
